@@ -51,6 +51,13 @@ def generate(tier, rng):
         else:
             t2 = mk(rng, tmax=big, maxn=rng.choice([0, 1, 4]), name="other")
             t2["min"] = 0
+            if t["kind"] == "P" and t["entries"] and t2["entries"] and rng.random() < 0.3:
+                # the seam: A's last point right at A's end, B's first point right at B's start, and the same mark on both
+                # (after the shift they are two points at one time with one label -- two points all the same)
+                t["entries"][-1][0] = t["max"]
+                t2["entries"][0][0] = 0
+                t2["entries"][0][1] = t["entries"][-1][1]
+                t2["entries"].sort()
             cases.append({"op": "append", "tier": t, "args": {"other": t2}, "scale": sc})
     for _ in range(500 if tier == "quick" else 6000):
         def mk_tg(names):
